@@ -318,6 +318,12 @@ func (w *World) Exec(n int, st *Step) *Obs {
 	case "set_cookie":
 		br.Cookies["rm"] = secVal
 		return w.finishNonHTTP(o)
+	case "restart":
+		// the server process restarts: whatever it kept in memory is gone, the
+		// database and the browsers' jars survive
+		w.restart()
+		w.Stats.Reach["restart"]++
+		return w.finishNonHTTP(o)
 	case "drop_session":
 		// the browser loses its session (e.g. session cookie expired) but keeps cookies
 		br.Session = map[string]string{}
@@ -460,6 +466,16 @@ func (w *World) Exec(n int, st *Step) *Obs {
 		switch st.str("code") {
 		case "fresh":
 			u := w.idpUser(st)
+			if cp := st.str("code_provider"); cp != "" && cp != u.Provider {
+				// the user consented at another provider than the one whose
+				// callback route receives the code: for that route's provider
+				// this is not a code of its own
+				u = IdPUser{Provider: cp, UID: u.UID + "-at-" + cp, Email: u.UID + "." + cp + "@idp.example"}
+				q.Set("code", w.IdP.Grant(u))
+				o.CodeUnused = false
+				w.Stats.Reach["oauth2_code_of_other_provider"]++
+				break
+			}
 			q.Set("code", w.IdP.Grant(u))
 			o.CodeUnused = true
 		case "replay":
@@ -478,8 +494,11 @@ func (w *World) Exec(n int, st *Step) *Obs {
 		}
 	case "probe":
 		method, path, hasBody = "GET", st.str("path"), false
+		if m := st.str("method"); m != "" {
+			method = m
+		}
 		if rq := st.str("rawquery"); rq != "" {
-			return w.doRequest(o, st, "GET", path, rq, "", "")
+			return w.doRequest(o, st, method, path, rq, "", "")
 		}
 	case "replay":
 		lr := w.Browsers[st.B].last
